@@ -3,7 +3,7 @@ import ast
 import re
 
 from sa.astutil import (inline_locals, norm, guards_of, walk_no_nested, always_exits, parent, enclosing, stmt_of,
-                        preceding_stmts, body_walk)
+                        preceding_stmts, body_walk, qualname, enclosing_func)
 from sa.bitsdom import self_name
 from sa.errors import AnalysisError
 from sa.report import RuleResult
@@ -177,15 +177,34 @@ def tick_sequences(repo):
     return out
 
 
-def _atoms(test, at):
-    """normalised conjuncts of a condition with helper locals inlined: `len(E) == 0` / `not len(E)` / `not E` are one form"""
+def _atoms(test, at, negate=False):
+    """normalised conjuncts of a condition (of its negation with negate=True) with helper locals inlined:
+    `len(E) == 0` / `not len(E)` / `not E` are one form, as are their negations `len(E) != 0` / `len(E) > 0` / `E`"""
+    from sa.astutil import canon_atom
     t = inline_locals(test, at)
-    parts = t.values if isinstance(t, ast.BoolOp) and isinstance(t.op, ast.And) else [t]
+    while isinstance(t, ast.UnaryOp) and isinstance(t.op, ast.Not):
+        t, negate = t.operand, not negate
+    if not negate:
+        parts = [(v, True) for v in t.values] if isinstance(t, ast.BoolOp) and isinstance(t.op, ast.And) else [(t, True)]
+    else:
+        parts = [(v, False) for v in t.values] if isinstance(t, ast.BoolOp) and isinstance(t.op, ast.Or) else [(t, False)]
     out = set()
-    for p in parts:
-        x = norm(p)
-        mm = re.fullmatch(r'len\((.*)\) == 0', x) or re.fullmatch(r'not len\((.*)\)', x) or re.fullmatch(r'0 == len\((.*)\)', x)
-        out.add('not ' + mm.group(1) if mm else x)
+    for p, pol in parts:
+        x, pol = canon_atom(p, pol)
+        mm = re.fullmatch(r'len\((.*)\) == 0', x) or re.fullmatch(r'not len\((.*)\)', x) or re.fullmatch(r'0 == len\((.*)\)', x) \
+            or re.fullmatch(r'len\((.*)\) <= 0', x) or re.fullmatch(r'len\((.*)\) < 1', x)
+        nn = re.fullmatch(r'len\((.*)\) != 0', x) or re.fullmatch(r'len\((.*)\) > 0', x) or re.fullmatch(r'len\((.*)\) >= 1', x) \
+            or re.fullmatch(r'len\((.*)\)', x)
+        if mm:
+            a, pol = 'not ' + mm.group(1), pol
+        elif nn:
+            a, pol = 'not ' + nn.group(1), not pol
+        elif x.startswith('not '):
+            a, pol = x, pol
+        else:
+            a, pol = 'not ' + x, not pol
+        # a is always of the form `not E`; polarity False means E itself holds
+        out.add(a if pol else a[4:])
     return out
 
 
@@ -199,7 +218,11 @@ def _extra_pre_edge_conditions(repo, hm, hc, hf, cond_tuples):
     ifs = [n for n in ef.body if isinstance(n, ast.If)]
     if not ifs:
         return []
-    allowed = _atoms(ifs[0].test, ifs[0])
+    # the 'pure RTL' branch is the one that builds the combinational function (the other one only reports why it cannot)
+    builds = lambda body: any(isinstance(c, ast.Call) and norm(c.func).endswith('gen_tick_function') for st in body for c in ast.walk(st))
+    if builds(ifs[0].body) == builds(ifs[0].orelse):
+        raise AnalysisError(f"{ec}.create_sim_eval_comb: the branch that builds the combinational function was not identified")
+    allowed = _atoms(ifs[0].test, ifs[0], negate=not builds(ifs[0].body))
     extra = []
     for conds in cond_tuples:
         for c in conds:
@@ -722,14 +745,24 @@ def rule_ffset(repo):
     mm = repo.mod(MAMBA)
     f = mm.get_func('Mamba2020Pass.schedule_ff')
     loops = [s for s in f.body if isinstance(s, ast.For)]
-    if len(loops) != 2:
-        raise AnalysisError("Mamba2020Pass.schedule_ff: expected collecting and partition loops")
-    col, part = loops
-    ok = norm(col.iter) == 'top.get_all_update_ff()' and _covers_all(
-        col, lambda s: isinstance(s, ast.Expr) and isinstance(s.value, ast.Call) and norm(s.value.func) == 'ffs.append'
-        and norm(col.target) in norm(s.value.args[0]))
+    comp = [s for s in f.body if isinstance(s, ast.Assign) and norm(s.targets[0]) == 'ffs' and isinstance(s.value, ast.ListComp)]
+    if len(loops) == 2 and not comp:
+        col, part = loops
+        ok = norm(col.iter) == 'top.get_all_update_ff()' and _covers_all(
+            col, lambda s: isinstance(s, ast.Expr) and isinstance(s.value, ast.Call) and norm(s.value.func) == 'ffs.append'
+            and norm(col.target) in norm(s.value.args[0]))
+        at = col
+    elif len(loops) == 1 and len(comp) == 1:
+        # the collection written as one comprehension: every block of the design-wide set, no filter, the block in the tuple
+        part, lc = loops[0], comp[0].value
+        g = lc.generators
+        ok = len(g) == 1 and not g[0].ifs and norm(g[0].iter) == 'top.get_all_update_ff()' and \
+            any(isinstance(e, ast.Name) and e.id == norm(g[0].target) for e in ast.walk(lc.elt))
+        at = comp[0]
+    else:
+        raise AnalysisError("Mamba2020Pass.schedule_ff: expected the collection of the ff blocks (loop or comprehension) and the partition loop")
     (r.ok if ok else r.bad)(mm, 'Mamba2020Pass.schedule_ff', 'collect all update_ff blocks',
-                            *([] if ok else ["some update_ff blocks are not collected", col.lineno]))
+                            *([] if ok else ["some update_ff blocks are not collected", at.lineno]))
     it = part.iter
     if isinstance(it, ast.Call) and norm(it.func) == 'enumerate':
         it = it.args[0]
@@ -768,6 +801,152 @@ def rule_ffset(repo):
     (r.ok if ok else r.bad)(mm, 'Mamba2020Pass.compile_meta_block', 'blk{i}() for i, b in enumerate(blocks)',
                             *([] if ok else ["a meta block must call each of its blocks once, in order", g.lineno]))
     r.require_floor(5)
+    return r
+
+
+def rule_design_wide(repo):
+    r = RuleResult('R-C07-design-wide', "whatever is decided once for the whole design (scheduling of the ff blocks, the checks run at the "
+                                        "elaborated top) reads the design-wide tables, never the top component's own")
+    # a simulation pass sees the design through the design-wide accessors of the top component: the component-local sibling of
+    # such an accessor (same table without the all_ prefix) only holds the top component's own blocks.  The sibling pairs are
+    # derived from Component.py (get_X returns s._dsl.T, get_all_X returns s._dsl.all_T).
+    cm = repo.mod('pymtl3/dsl/Component.py')
+    ret_tab = {}
+    for name, g in cm.methods('Component').items():
+        rets = [x for x in ast.walk(g) if isinstance(x, ast.Return) and x.value is not None]
+        tabs = set()
+        for x in rets:
+            for e in (x.value.elts if isinstance(x.value, ast.Tuple) else [x.value]):
+                if isinstance(e, ast.Attribute) and norm(e.value) == 's._dsl':
+                    tabs.add(e.attr)
+        if tabs:
+            ret_tab[name] = tabs
+    local_of = {}
+    for name, tabs in ret_tab.items():
+        if all(t.startswith('all_') for t in tabs):
+            for other, otabs in ret_tab.items():
+                if otabs == {t[4:] for t in tabs}:
+                    local_of[other] = name
+    if not {'get_update_ff', 'get_update_blocks'} <= set(local_of):
+        raise AnalysisError(f"Component.py: local / design-wide accessor pairs were not derived ({sorted(local_of)})")
+    n_calls = 0
+    for rel in sorted(x for sub in ('pymtl3/passes/sim', 'pymtl3/passes/mamba', 'pymtl3/passes/autotick', 'pymtl3/passes/tracing')
+                      for x in repo.py_files(sub)):
+        pm = repo.mod(rel)
+        for c in ast.walk(pm.tree):
+            if isinstance(c, ast.Call) and isinstance(c.func, ast.Attribute) and norm(c.func.value) == 'top' and \
+                    (c.func.attr in local_of or c.func.attr in local_of.values()):
+                n_calls += 1
+                fq = qualname(enclosing_func(c)) if enclosing_func(c) is not None else '<module>'
+                cons = f"top.{c.func.attr}() in {fq}"
+                if c.func.attr in local_of:
+                    r.bad(pm, fq, cons, f"`top.{c.func.attr}()` only returns the blocks the top component defines itself; the pass must ask for the whole "
+                          f"design (`top.{local_of[c.func.attr]}()`): with a structural top whose registers / blocks live in sub-components the "
+                          f"test or loop built on it sees nothing", c.lineno)
+                else:
+                    r.ok(pm, fq, cons)
+    if n_calls < 8:
+        raise AnalysisError(f"accessor calls on `top` in the simulation passes: found {n_calls}, expected at least 8")
+    # the checks elaborate() runs once at the top (_check_valid_dsl_code and what it calls) must look at every block of the design:
+    # a table s._dsl.T that has a design-wide sibling s._dsl.all_T must not be what they iterate / look up
+    n_chk = 0
+    levels = [(f'pymtl3/dsl/ComponentLevel{k}.py', f'ComponentLevel{k}') for k in range(1, 8)]
+    levels = [(rel, cls) for rel, cls in levels if repo.exists(rel)]
+    all_wide = {t.attr for rel, cls in levels for g in repo.mod(rel).methods(cls).values() for a_ in ast.walk(g) if isinstance(a_, ast.Assign)
+                for t in a_.targets if isinstance(t, ast.Attribute) and norm(t.value) == 's._dsl' and t.attr.startswith('all_')}
+    for rel, cls in levels:
+        dm = repo.mod(rel)
+        meths = dm.methods(cls)
+        if '_check_valid_dsl_code' not in meths:
+            continue
+        todo, seen = ['_check_valid_dsl_code'], set()
+        while todo:
+            nm = todo.pop()
+            if nm in seen or nm not in meths:
+                continue
+            seen.add(nm)
+            for c in ast.walk(meths[nm]):
+                if isinstance(c, ast.Call) and isinstance(c.func, ast.Attribute) and norm(c.func.value) == 's' and c.func.attr in meths:
+                    todo.append(c.func.attr)
+        for nm in sorted(seen - {'_check_valid_dsl_code'}):
+            g = meths[nm]
+            for a_ in ast.walk(g):
+                if isinstance(a_, ast.Attribute) and norm(a_.value) == 's._dsl' and isinstance(a_.ctx, ast.Load):
+                    if a_.attr.startswith('all_'):
+                        n_chk += 1
+                        r.ok(dm, f"{cls}.{nm}", f"{nm} reads s._dsl.{a_.attr}", nontrivial=False)
+                    elif 'all_' + a_.attr in all_wide:
+                        n_chk += 1
+                        r.bad(dm, f"{cls}.{nm}", f"{nm} reads s._dsl.{a_.attr}",
+                              f"`s._dsl.{a_.attr}` holds only what the top component defines itself; the check runs once at the elaborated top and "
+                              f"must read `s._dsl.all_{a_.attr}`: a violation inside a sub-component (two update_ff blocks writing one register, "
+                              f"a write to another component's wire) is otherwise never reported", a_.lineno)
+    if n_chk < 3:
+        raise AnalysisError(f"design-wide tables read by the elaboration checks: found {n_chk}, expected at least 3")
+    r.require_floor(11)
+    return r
+
+
+OPENLOOP = 'pymtl3/passes/autotick/OpenLoopCLPass.py'
+
+
+def rule_openloop_advance(repo):
+    """open-loop (method-driven) simulation: a method call that belongs to a later cycle first finishes the current one.  The
+    wrapper is evaluated concretely on small schedules: finishing the cycle runs EVERY remaining entry (the update_ff blocks and
+    the register flip are the last ones), then the new cycle runs up to the method's own position."""
+    r = RuleResult('R-C07-openloop-advance', "a wrapped top-level method finishes the current cycle completely (every remaining schedule entry, "
+                                             "flip included), counts it, then runs the new cycle up to its own position -- each entry exactly once")
+    from sa.listwalk import ListWalk
+    m = repo.mod(OPENLOOP)
+    outer = m.get_func('OpenLoopCLPass.schedule_with_top_level_callee')
+    wraps = [n for n in ast.walk(outer) if isinstance(n, ast.FunctionDef) and n.name == 'wrap_method']
+    if len(wraps) != 1:
+        raise AnalysisError("anchor vanished: OpenLoopCLPass wrap_method")
+    inner = [n for n in wraps[0].body if isinstance(n, ast.FunctionDef)]
+    if len(inner) != 1:
+        raise AnalysisError("wrap_method: expected one nested function")
+    act = inner[0]
+    params = [a.arg for a in wraps[0].args.args]
+    if params != ['top', 'method', 'my_idx_new', 'schedule_no_method', 'my_idx_orig']:
+        raise AnalysisError(f"wrap_method: unexpected parameters {params}")
+    fq = 'OpenLoopCLPass.schedule_with_top_level_callee.wrap_method.actual_method'
+    for K in (2, 3, 4):
+        for my_new in range(K):
+            for my_orig in (0, 2):
+                for i0 in range(K + 1):
+                    for j0 in (0, my_orig, my_orig + 1, my_orig + 3):
+                        advance = j0 > my_orig
+                        if not advance and i0 > my_new:
+                            continue            # not reachable: within one cycle the position never passes a method still to come
+                        log = []
+                        mk = lambda k: (lambda: log.append(k))
+                        env = {'schedule_no_method': [mk(k) for k in range(K)], 'my_idx_new': my_new, 'my_idx_orig': my_orig,
+                               'method': (lambda *a: log.append('M')), 'top._sched.new_schedule_index': i0,
+                               'top._sched.orig_schedule_index': j0, 'top._sim.simulated_cycles': 0}
+                        w = ListWalk(set(), env=env, budget=5000)
+                        try:
+                            w.block([s_ for s_ in act.body if not (isinstance(s_, ast.Expr) and isinstance(s_.value, ast.Constant))])
+                        except Exception as e:       # noqa: BLE001
+                            if e.__class__.__name__ == '_Return':
+                                pass
+                            elif isinstance(e, AnalysisError):
+                                raise AnalysisError(f"{fq}: {e}")
+                            else:
+                                log.append(f"raises {e.__class__.__name__}")
+                        want = (list(range(i0, K)) + list(range(0, my_new)) if advance else list(range(i0, my_new))) + ['M']
+                        cyc = w.env['top._sim.simulated_cycles']
+                        ok = log == want and cyc == (1 if advance else 0) and w.env['top._sched.new_schedule_index'] == my_new \
+                            and w.env['top._sched.orig_schedule_index'] == my_orig + 1
+                        cons = f"schedule of {K}, method before entry {my_new} (original position {my_orig}), called at position {i0} / original {j0}"
+                        if ok:
+                            r.ok(m, fq, cons)
+                            r.evaluations += 1
+                        elif len(r.findings) < 2:          # the first two failing configurations tell the story
+                            r.bad(m, fq, cons, f"runs {log} and counts {cyc} cycle(s); expected {want} and {1 if advance else 0}: "
+                                  + ("the current cycle is not finished completely -- its last entries are the update_ff blocks and the register "
+                                     "flip, so registers never take their value when a method call advances the cycle" if advance and len(log) < len(want)
+                                     else "an entry is run twice, skipped or run out of order"), act.lineno)
+    r.require_floor(100)
     return r
 
 
@@ -850,7 +1029,14 @@ def rule_struct_registers_wiring(repo):
     return rule_wiring(repo)
 
 
-RULES = [rule_effects, rule_tick_order, rule_dbuf_set, rule_flip_cover, rule_init, rule_ffset, rule_ff_not_comb,
+def rule_helper_writes_folded(repo):
+    """a register written only inside a (nested) @s.func helper is double-buffered and checked for a second writer only if the
+    helper's write set is folded into every block that reaches it through the call graph -- decided by C02 (R-C02-funcfold)"""
+    from rules.c02 import rule_funcfold
+    return rule_funcfold(repo)
+
+
+RULES = [rule_helper_writes_folded, rule_design_wide, rule_openloop_advance, rule_effects, rule_tick_order, rule_dbuf_set, rule_flip_cover, rule_init, rule_ffset, rule_ff_not_comb,
          rule_next_in_range, rule_writes_detected, rule_meta_cache, rule_struct_registers, rule_struct_registers_grid, rule_struct_registers_wiring, rule_replace_marks_registers, rule_operator_table, rule_register_index]
 
 
@@ -859,6 +1045,11 @@ def _m(name, file, old, new, rule=None, count=1):
 
 
 MUTANTS = [
+    _m('openloop-advance-stops-one-early', OPENLOOP, "          while i < len(schedule_no_method):\n", "          while i < len(schedule_no_method) - 1:\n", 'R-C07-openloop-advance'),
+    _m('openloop-advance-does-not-count-cycle', OPENLOOP, "          i = j = 0\n          top._sim.simulated_cycles += 1\n", "          i = j = 0\n", 'R-C07-openloop-advance'),
+    _m('openloop-runs-own-position-too', OPENLOOP, "        while i < my_idx_new:\n", "        while i <= my_idx_new:\n", 'R-C07-openloop-advance'),
+    _m('mamba-ff-early-exit-asks-top-only', MAMBA, "    if not top.get_all_update_ff():\n      return\n", "    if not top.get_update_ff():\n      return\n", 'R-C07-design-wide'),
+    _m('multi-writer-check-over-top-blocks-only', 'pymtl3/dsl/ComponentLevel2.py', "    for blk, writes in s._dsl.all_upblk_writes.items():\n", "    for blk, writes in s._dsl.upblk_writes.items():\n", 'R-C07-design-wide', count='first'),
     _m('tick-pre-edge-comb-needs-top-inports', PREP, "       len( top.get_all_update_once() ) == 0:\n      final_schedule = top._sched.update_schedule[::]", "       len( top.get_all_update_once() ) == 0 and len( top.get_input_value_ports() ) > 2:\n      final_schedule = top._sched.update_schedule[::]", 'R-tick-order'),
     _m('reset-comb-only-with-linetrace', PREP, "      ff()\n      # cycle 1\n      up()\n      if print_line_trace:\n", "      ff()\n      # cycle 1\n      if print_line_trace:\n        up()\n", 'R-tick-order'),
     _m('ff-funcs-memoised-on-pass', PREP, "  def collect_ff_funcs( self, top ):\n", "  def collect_ff_funcs( self, top ):\n    if getattr( self, '_ff_funcs', None ) is not None:\n      return self._ff_funcs\n", 'R-tick-order'),
@@ -902,6 +1093,12 @@ MUTANTS = [
 ]
 
 EQUIV = [
+    _m('mamba-ff-collection-as-comprehension', MAMBA, "    ffs = []\n    for x in top.get_all_update_ff():\n      # Here we treat loop-only upblk as 0 branchiness\n      ffs.append( (0 if self.only_loop_at_top[x] else self.branchiness[x], x) )\n",
+       "    ffs = [ (0 if self.only_loop_at_top[x] else self.branchiness[x], x)\n            for x in top.get_all_update_ff() ]\n"),
+    _m('eval-comb-test-de-morgan', PREP, '    if len( method_ports ) == 0 and \\\n       len( top.get_all_update_once() ) == 0:\n      sim_eval_combinational = SimpleTickPass.gen_tick_function( [top._sim.check_top_level_inports] + top._sched.update_schedule )\n    else:\n      def sim_eval_combinational():\n        if method_ports:\n          raise NotImplementedError(f"top is not a pure RTL design. {\'top\'+repr(list(method_ports)[0])[1:]} is a method port.")\n        raise NotImplementedError("top is not a pure RTL design: it has update_once blocks.")\n', '    if len( method_ports ) != 0 or \\\n       len( top.get_all_update_once() ) != 0:\n      def sim_eval_combinational():\n        if method_ports:\n          raise NotImplementedError(f"top is not a pure RTL design. {\'top\'+repr(list(method_ports)[0])[1:]} is a method port.")\n        raise NotImplementedError("top is not a pure RTL design: it has update_once blocks.")\n    else:\n      sim_eval_combinational = SimpleTickPass.gen_tick_function( [top._sim.check_top_level_inports] + top._sched.update_schedule )\n'),
+    _m('openloop-advance-as-for-loop', OPENLOOP, "          while i < len(schedule_no_method):\n            schedule_no_method[i]()\n            i += 1\n", "          for k in range( i, len(schedule_no_method) ):\n            schedule_no_method[k]()\n"),
+    _m('mamba-ff-early-exit-via-local', MAMBA, "    if not top.get_all_update_ff():\n      return\n", "    all_ffs = top.get_all_update_ff()\n    if len( all_ffs ) == 0:\n      return\n"),
+    _m('multi-writer-check-table-in-local', 'pymtl3/dsl/ComponentLevel2.py', "    for blk, writes in s._dsl.all_upblk_writes.items():\n", "    all_writes = s._dsl.all_upblk_writes\n    for blk, writes in all_writes.items():\n", count='first'),
     _m('flip-regroup-merged-branches', SIMPLE, "        if len(y) > 1:\n          next_hostobj_signals[x].extend( y )\n        elif x is top:\n          next_hostobj_signals[x].extend( y )\n        else:", "        if len(y) > 1 or x is top:\n          next_hostobj_signals[x].extend( y )\n        else:"),
     _m('flip-explicit-tmp', BITS, "    self._uint = self._next\n", "    self._uint = self._next\n    pass\n"),
     _m('collect-order-trace', PREP, "    ret.extend( top._sched.schedule_ff )\n    ret.extend( top._sched.schedule_posedge_flip )", "    ret += top._sched.schedule_ff\n    ret += top._sched.schedule_posedge_flip"),
